@@ -790,4 +790,45 @@ Proof.
     replace (j <? nl)%nat with true by (symmetry; apply Nat.ltb_lt; lia). cbn [andb]. apply Ainv_val_pure; reflexivity.
 Qed.
 End Worker.
+
+(* ================= independence of call history ================= *)
+(* LAPACK reads and writes only the n x n block it is given: the oracles depend on, and are compared on, that block only *)
+Definition agree2 (n m : nat) (X X' : arr2 F) : Prop := forall i j, (i < n)%nat -> (j < m)%nat -> X i j = X' i j.
+Definition oracles_local : Prop :=
+  (forall n a a', agree2 n n a a' ->
+     match o_inv orc n a, o_inv orc n a' with Some Y, Some Y' => agree2 n n Y Y' | None, None => True | _, _ => False end) /\
+  (forall n a a', agree2 n n a a' ->
+     match o_lu orc n a, o_lu orc n a' with Some U, Some U' => forall i, (i < n)%nat -> U i i = U' i i | None, None => True | _, _ => False end).
+
+Lemma pvalue_local MT w mu y (Y Y' U U' : arr2 F) :
+  agree2 nl nl Y Y' -> (forall i, (i < nt)%nat -> U i i = U' i i) -> pvalue MT w mu y Y U = pvalue MT w mu y Y' U'.
+Proof.
+  intros HY HU. unfold pvalue. f_equal. f_equal.
+  - unfold pchi2. apply for_range_ext. intros n acc Hn. apply fold_from_ext. intros m Hm. f_equal. f_equal.
+    unfold pBinv. apply for_range_ext. intros i acc' Hi. apply fold_from_ext. intros j Hj. rewrite (HY i j Hi Hj). reflexivity.
+  - unfold logdet_val. apply fold_from_ext. intros i Hi. rewrite (HU i Hi). reflexivity.
+Qed.
+
+(* two states with the same configuration (design matrix incl. the K row, jittered inverse variances, prior means and variances,
+   velocities) give the same value, whatever the scratch buffers and locals hold from earlier calls *)
+Theorem worker_history_independent (s0 s0' : st) (Y U : arr2 F) :
+  oracles_local ->
+  v_M_T s0 = v_M_T s0' -> v_s_ivar s0 = v_s_ivar s0' -> v_mu s0 = v_mu s0' -> v_Lambda s0 = v_Lambda s0' -> v_rv s0 = v_rv s0' ->
+  o_inv orc nl (Atmp_arg s0) = Some Y -> o_lu orc nt (Btmp_arg s0) = Some U ->
+  snd (likelihood_worker fo orc NT NL 0%Z s0) = snd (likelihood_worker fo orc NT NL 0%Z s0').
+Proof.
+  intros [Hinv Hlu] HM Hw Hmu HLa Hy HY HU.
+  assert (EA : agree2 nl nl (Atmp_arg s0) (Atmp_arg s0')).
+  { intros i j Hi Hj. unfold Atmp_arg, in2.
+    replace (i <? nl)%nat with true by (symmetry; apply Nat.ltb_lt; lia).
+    replace (j <? nl)%nat with true by (symmetry; apply Nat.ltb_lt; lia). cbn [andb]. rewrite HM, Hw, HLa. reflexivity. }
+  assert (EB : agree2 nt nt (Btmp_arg s0) (Btmp_arg s0')).
+  { intros i j Hi Hj. unfold Btmp_arg, in2.
+    replace (i <? nt)%nat with true by (symmetry; apply Nat.ltb_lt; lia).
+    replace (j <? nt)%nat with true by (symmetry; apply Nat.ltb_lt; lia). cbn [andb]. rewrite HM, Hw, HLa. reflexivity. }
+  pose proof (Hinv nl _ _ EA) as H1. rewrite HY in H1. destruct (o_inv orc nl (Atmp_arg s0')) as [Y'|] eqn:HY'; [|contradiction].
+  pose proof (Hlu nt _ _ EB) as H2. rewrite HU in H2. destruct (o_lu orc nt (Btmp_arg s0')) as [U'|] eqn:HU'; [|contradiction].
+  rewrite (worker_value_marginal s0 Y U HY HU), (worker_value_marginal s0' Y' U' HY' HU').
+  rewrite <- HM, <- Hw, <- Hmu, <- Hy. apply pvalue_local; assumption.
+Qed.
 End Loops.
